@@ -91,7 +91,8 @@ func c05Route(optShape int, pathSet bool, path string, slash int, reqPath string
 		opts = ao
 	}
 	ps.Attach(hs, opts)
-	r := &http.Request{Method: "GET", URL: &url.URL{Path: reqPath}, Header: http.Header{}, Host: "example.test"}
+	method := [4]string{"GET", "POST", "CONNECT", "OPTIONS"}[verif.Choose(4)] // routing does not depend on the method
+	r := &http.Request{Method: method, URL: &url.URL{Path: reqPath}, Header: http.Header{}, Host: "example.test"}
 	h, pattern := hs.Handler(r)
 	want := refRouted(refMount(pathSet && optShape == 2, path, func() int {
 		if optShape == 2 {
